@@ -546,11 +546,16 @@ def run_property(prop, tier="quick", seed=0, only=None, extra=None):
     reported = set()
     per_ob = {}
     replay_cache = {}
-    if getattr(mod, "REPLAY_KEYED_BY_EXPECTS", False) and violations:
+    _rk = getattr(mod, "REPLAY_KEYED_BY_EXPECTS", False)
+
+    def keyed(c):
+        # True: every replay of the module ignores the abstract witness; a set: only the named replay functions do
+        return _rk is True or (isinstance(_rk, (set, frozenset, tuple, list)) and c.replay in _rk)
+    if _rk and violations:
         from concurrent.futures import ThreadPoolExecutor
         jobs = {}
         for c, r, ob, full in violations:
-            if c.replay:
+            if c.replay and keyed(c):
                 ck = (c.replay, full, json.dumps(ob.get("expects"), sort_keys=True, default=str))
                 jobs.setdefault(ck, (c, ob, full))
         with ThreadPoolExecutor(8) as tp:
@@ -563,7 +568,7 @@ def run_property(prop, tier="quick", seed=0, only=None, extra=None):
             continue
         rep = None
         if c.replay:
-            if getattr(mod, "REPLAY_KEYED_BY_EXPECTS", False):
+            if keyed(c):
                 # the native search of this property depends on the obligation and the expected outcome only, not on the abstract witness
                 ck = (c.replay, full, json.dumps(ob.get("expects"), sort_keys=True, default=str))
                 if ck not in replay_cache:
